@@ -93,6 +93,63 @@ def exempt_names(fn):
     return ex
 
 
+def outer_iter_names(nodes, enter_functions=False):
+    """names loaded by the FIRST iterable of comprehensions / generator expressions, as far as that iterable is
+    evaluated in the block the nodes are written in (language reference 6.2.4: "the iterable expression in the
+    leftmost for clause is evaluated directly in the enclosing scope").  Such a read is a read of the enclosing
+    function's variable even when the same name is the comprehension's own target, so it is NOT covered by the
+    comprehension-target exemption.  Lambda / def / class bodies are not entered."""
+    out = set()
+
+    def rec(n):
+        if isinstance(n, (ast.FunctionDef, ast.AsyncFunctionDef, ast.Lambda, ast.ClassDef)):
+            return
+        if isinstance(n, (ast.ListComp, ast.SetComp, ast.DictComp, ast.GeneratorExp)):
+            first = n.generators[0].iter
+            for x in ast.walk(first):
+                if isinstance(x, ast.Lambda):
+                    break
+            else:
+                out.update(x.id for x in ast.walk(first) if isinstance(x, ast.Name) and isinstance(x.ctx, ast.Load)
+                           and not _inside_inner_comp(first, x))
+            rec(first)
+            return          # everything else of the comprehension runs in the comprehension's own scope
+        for c in ast.iter_child_nodes(n):
+            rec(c)
+    for n in nodes:
+        rec(n)
+    return out
+
+
+def _inside_inner_comp(root, name_node):
+    """is name_node inside a comprehension nested in root, other than in that comprehension's first iterable?"""
+    def rec(n, hidden):
+        if n is name_node:
+            return hidden
+        if isinstance(n, (ast.ListComp, ast.SetComp, ast.DictComp, ast.GeneratorExp)):
+            for c in ast.iter_child_nodes(n):
+                if c is n.generators[0]:
+                    g = n.generators[0]
+                    r = rec(g.iter, hidden)
+                    if r is not None:
+                        return r
+                    for c2 in [g.target] + list(g.ifs):
+                        r = rec(c2, True)
+                        if r is not None:
+                            return r
+                else:
+                    r = rec(c, True)
+                    if r is not None:
+                        return r
+            return None
+        for c in ast.iter_child_nodes(n):
+            r = rec(c, hidden)
+            if r is not None:
+                return r
+        return None
+    return bool(rec(root, False))
+
+
 def nested_param_names(fn):
     return set(p.arg for n, _ in block_walk(fn) if isinstance(n, (ast.FunctionDef, ast.Lambda)) for p in fn_params(n))
 
@@ -245,6 +302,10 @@ def oracle_static(src, node, quirks):
         for c in ast.iter_child_nodes(n):
             enc(c, tg)
     enc(node, set())
+    in_class = set()
+    for c in ast.walk(node):
+        if isinstance(c, ast.ClassDef):
+            in_class.update(id(x) for x in ast.walk(c))
     for fn in fns:
         m = match_functions([fn], src)
         if m is None:
@@ -290,6 +351,13 @@ def oracle_static(src, node, quirks):
                 ex_fv.update(t.id for t in ast.walk(b.target) if isinstance(t, ast.Name))
             if isinstance(b, ast.ExceptHandler) and b.name:
                 ex_fv.add(b.name)
+        body_nodes = fn.body if isinstance(fn.body, list) else [fn.body]
+        ex_fv -= outer_iter_names(body_nodes)
+        for b in nested_blocks(fn):
+            if isinstance(b, (ast.FunctionDef, ast.Lambda)) and id(b) not in in_class:
+                ex_fv -= outer_iter_names(b.body if isinstance(b.body, list) else [b.body])
+        ex_fv |= enclosing_targets.get(id(fn), set())
+        ex_fv |= set(b.name for b in ast.walk(fn) if isinstance(b, ast.ExceptHandler) and b.name)   # except names stay exempt
         declared = declg | decln
         h_fv = simple(sc.free_vars) - declared - ex_fv
         s_fv = fv_cpython(t) - declared - ex_fv
@@ -369,6 +437,7 @@ def run_events(src, dv):
     glb['GO'] = go
     glb['GV'] = 5
     glb['TY'] = int
+    glb['GW'] = (3, 4)
     exec(compile(src, '<c08>', 'exec'), glb)
     kind, val, events = pyrt.run_var_events(glb['f'], (1, 2, 3), world)
     return kind, val, events
@@ -393,6 +462,7 @@ def oracle_dynamic(src, node, dvs, quirks=None):
         for s in ast.walk(fn):
             if isinstance(s, ast.FunctionDef) and s is not fn:
                 def_annots.setdefault((fn.name, s.lineno), set()).update(own_annotation_names(s))
+    outer_reads = dict((key, outer_iter_names(nodes)) for key, nodes in stmts.items())
     for dv in dvs:
         try:
             kind, val, events = run_events(src, dv)
@@ -404,8 +474,11 @@ def oracle_dynamic(src, node, dvs, quirks=None):
             k, code, line, var = e
             if code not in per_fn:
                 continue            # lambda / generator-expression frames: not statements of their own
-            if var in handler_names[code] or var in comp_targets[code]:
-                continue            # the two exemptions of the property
+            if var in handler_names[code]:
+                continue            # exemption of the property
+            if var in comp_targets[code] and not (k in ('R', 'GR') and var in outer_reads.get((code, line), ())):
+                continue            # exemption of the property -- but the leftmost iterable of a comprehension is
+                                    # evaluated in the statement's own scope: that read is the statement's read
             scs = per_fn[code].get(line, 'none')
             if scs is None or scs == 'none':
                 continue            # except header (no scope recorded) / a line that is not a statement
